@@ -14,7 +14,7 @@
 
 enum { OK_CTR, OK_PAR };
 enum { PH_ZERO, PH_LIVE, PH_CLEANED, PH_FAILED };
-enum { L_INIT, L_KEY, L_TKEY, L_TWEAK, L_CTR, L_USE, L_USEBIG, L_SWAP, L_CLEANUP };
+enum { L_INIT, L_KEY, L_TKEY, L_TWEAK, L_CTR, L_USE, L_USEBIG, L_SWAP, L_CLEANUP, L_KEYSHORT };
 
 static int g_mode;               /* 15 or 17 */
 static int g_okind; static Cipher g_c; static int g_be, g_bs;
@@ -44,6 +44,7 @@ static void l_build(void)
     for (i = 0; i < 2; ++i) {
         l_ops[l_nops].type = L_INIT; l_ops[l_nops++].obj = i;
         l_ops[l_nops].type = L_KEY; l_ops[l_nops++].obj = i;
+        if (g_c != CK_MANTIS && (g_mode == 17 || i == 0)) { l_ops[l_nops].type = L_KEYSHORT; l_ops[l_nops++].obj = i; }   /* re-key with the shortest key: fewer rounds than before */
         if (g_okind == OK_CTR) {
             if (g_c != CK_MANTIS) { l_ops[l_nops].type = L_TKEY; l_ops[l_nops++].obj = i; }
             if (g_mode == 17 || i == 0) { l_ops[l_nops].type = L_TWEAK; l_ops[l_nops++].obj = i; }
@@ -80,7 +81,7 @@ static int l_enabled(int op)
 
 static void l_opname(int op, char *buf, size_t n)
 {
-    static const char *nm[] = {"init", "set_key", "set_tweaked_key", "set_tweak", "set_counter", "use", "use(batch+3)", "swap_modes", "cleanup"};
+    static const char *nm[] = {"init", "set_key", "set_tweaked_key", "set_tweak", "set_counter", "use", "use(batch+3)", "swap_modes", "cleanup", "set_key(shortest)"};
     snprintf(buf, n, "%s(obj%d)", nm[l_ops[op].type], l_ops[op].obj);
 }
 
@@ -154,8 +155,13 @@ static void l_apply(int op, int check)
         } else if (r && !LW.have_first[o->obj]) { LW.have_first[o->obj] = 1; LW.first_init_digest[o->obj] = content_digest(b); }
         break;
     case L_KEY:
-        if (g_okind == OK_CTR) r = ctr_set_key(g_c, &b->h.c, KEYS[0], g_c == CK_MANTIS ? 16 : (unsigned)g_bs * 2, 7);
+        if (g_okind == OK_CTR) r = ctr_set_key(g_c, &b->h.c, KEYS[0], g_c == CK_MANTIS ? 16 : (unsigned)g_bs * 3, 7);
         else r = par_set_key(g_c, &b->h.p, KEYS[0], g_c == CK_MANTIS ? 16 : (unsigned)g_bs * 3, 6, MANTIS_ENCRYPT);
+        if (b->phase == PH_LIVE) b->keyed = 1;
+        break;
+    case L_KEYSHORT:
+        if (g_okind == OK_CTR) r = ctr_set_key(g_c, &b->h.c, KEYS[1], (unsigned)g_bs, 5);
+        else r = par_set_key(g_c, &b->h.p, KEYS[1], (unsigned)g_bs, 5, MANTIS_ENCRYPT);
         if (b->phase == PH_LIVE) b->keyed = 1;
         break;
     case L_TKEY:
@@ -216,7 +222,7 @@ static void l_apply(int op, int check)
         } else if (o->type != L_INIT && g_mode == 15) {
             if (g_alloc_calls != calls0 || count_frees() != frees0) l_report("unexpected-allocation", op, "a non-init call used the allocator");
             if (b->phase != PH_LIVE && r != 0 && r != -2) l_report("dead-object-accepted", op, "call on a %s object returned %d", b->phase == PH_ZERO ? "zeroed" : "cleaned-up", r);
-            if (b->phase == PH_LIVE && r == 0 && (o->type == L_KEY || o->type == L_TKEY || o->type == L_CTR || ((o->type == L_USE) && b->keyed)))
+            if (b->phase == PH_LIVE && r == 0 && (o->type == L_KEY || o->type == L_KEYSHORT || o->type == L_TKEY || o->type == L_CTR || ((o->type == L_USE) && b->keyed)))
                 l_report("live-object-rejected", op, "valid call on a live object returned 0");
         }
         /* conservation: blocks owned by live objects == live blocks */
@@ -257,14 +263,14 @@ static int setup_kind(const char *name)
     snprintf(ksig, sizeof(ksig), "C%d/%s/%s/%s/crash", g_mode, okname(), cipher_name(g_c), be_name(g_be));
     KIND.name = kname; KIND.sigbase = ksig; KIND.nops = l_nops; KIND.reset = l_reset; KIND.enabled = l_enabled;
     KIND.apply = l_apply; KIND.canon = l_canon; KIND.opname = l_opname;
-    KIND.max_depth = g_mode == 17 ? 8 : (tier_thorough() ? 8 : 6);
+    KIND.max_depth = g_mode == 17 ? (tier_thorough() ? 9 : 8) : (tier_thorough() ? 9 : 6);
     KIND.world = &LW; KIND.world_size = sizeof(LW);
     return 1;
 }
 
 /* =========================================================== C16: allocation-failure enumeration */
 
-static const char *PRIOR[] = {"zeros", "0xFF", "0xA5", "copy-of-live-object", "copy-of-cleaned-up-object"};
+static const char *PRIOR[] = {"zeros", "0xFF", "0xA5", "copy-of-live-object", "copy-of-cleaned-up-object", "painted (--paint pattern; poisoned under MemorySanitizer)"};
 enum { F_CLEANUP, F_KEY, F_CTR, F_ENC, F_SWAP, F_CLEANUP2, F_NOPS };
 static const char *FNAME[] = {"cleanup", "set_key", "set_counter", "use", "swap_modes", "cleanup"};
 
@@ -312,7 +318,8 @@ static void c16_case(int okind, Cipher c, int be, int prior, int failk, int s0, 
     case 1: memset(&victim, 0xFF, sizeof(victim)); break;
     case 2: memset(&victim, 0xA5, sizeof(victim)); break;
     case 3: memcpy(&victim, &other, sizeof(victim)); break;
-    default: memcpy(&victim, &cleaned, sizeof(victim)); break;
+    case 4: memcpy(&victim, &cleaned, sizeof(victim)); break;
+    default: verif_paint_obj(&victim, sizeof(victim)); break;   /* C11: nothing may be computed from this */
     }
     ol = okind == OK_CTR ? ctr_image(c, &other.c, oimg, sizeof(oimg)) : par_image(c, &other.p, oimg, sizeof(oimg));
     live_other = arena_live();
@@ -321,6 +328,7 @@ static void c16_case(int okind, Cipher c, int be, int prior, int failk, int s0, 
     r = okind == OK_CTR ? ctr_init(c, be, &victim.c) : par_init(c, be, &victim.p);
     g_fail_at = 0;
     distinct_add_u64(fnv1a(cd, strlen(cd), 16));
+    out_digest("init-return-under-allocation-failure", &r, sizeof(r));
     if (r != 0) {
         snprintf(sig, sizeof(sig), "%s/init-reported-success", sb);
         violation(sig, cd, "allocation %d of init failed but init returned %d (prior content %s)", failk, r, PRIOR[prior]);
@@ -331,6 +339,7 @@ static void c16_case(int okind, Cipher c, int be, int prior, int failk, int s0, 
     }
     for (i = 0; i < nseq; ++i) {
         int rr = f_call(okind, c, &victim, seq[i]);
+        out_digest("return-of-call-after-failed-init", &rr, sizeof(rr));
         if (rr != 0) {
             snprintf(sig, sizeof(sig), "%s/failed-object-accepted/%s", sb, FNAME[seq[i]]);
             violation(sig, cd, "%s on the object of a failed init returned %d (prior content %s)", FNAME[seq[i]], rr, PRIOR[prior]);
@@ -376,7 +385,7 @@ static void run_c16(void)
     }
     for (ok = 0; ok < 2; ++ok) for (c = 0; c < 3; ++c) for (be = 0; be <= cipher_max_be((Cipher)c); ++be, ++job) {
         if (job % g_opts.nshards != g_opts.shard) continue;
-        for (prior = 0; prior < 5; ++prior) for (k = 1; k <= 2; ++k)
+        for (prior = 0; prior < 6; ++prior) for (k = 1; k <= 2; ++k)
             for (s0 = -1; s0 < F_NOPS; ++s0) for (s1 = -1; s1 < F_NOPS; ++s1) for (s2 = -1; s2 < F_NOPS; ++s2) {
                 if (s0 < 0 && (s1 >= 0 || s2 >= 0)) continue;
                 if (s1 < 0 && s2 >= 0) continue;
